@@ -233,6 +233,9 @@ def case_docs(names, r):
         pre = list(names[:-1])
         docs.append(("pre-attrpath-sibling", "{ " + spell(pre + ["sib0"], qa) + " = 0; " + spell(names, qb) + " = 0; }", fq))
         docs.append(("pre-family-only", "{ " + spell(pre + ["sib0"], qa) + " = 0; " + spell(pre + ["sib1"], qb) + " = 0; }", fq))
+        # the first segment written once as an explicit set and then extended by the dotted binding (valid Nix, common in
+        # NixOS configurations: `boot = { … }; boot.kernelParams = …;`)
+        docs.append(("pre-explicit-then-dotted", "{ " + spell(names[:1], qa) + " = { sib0 = 0; }; " + spell(names, qb) + " = 0; }", fq))
         nested = "0"
         for i in range(len(names) - 1, -1, -1):
             nested = "{ " + spell([names[i]], {0} if i in qa else set()) + " = " + nested + "; }"
